@@ -10,7 +10,7 @@ func init() {
 	core.Register(&core.Property{
 		ID:    "C19",
 		Title: "Distinct instances are independent across goroutines",
-		Rule: "Race-detector build, no harness hook and no shared harness state while the workload runs: for every unordered pair of the eight operation families (build, mutate, search, sort with the default ranker incl. the default sorter of a composite type, compare/rank, format incl. String() through the class notation, parse, iterate) 2..16 goroutines each run a deterministic script on instances they create themselves, three times; " +
+		Rule: "Race-detector build, no harness hook and no shared harness state while the workload runs: for every unordered pair of the ten operation families (build, mutate, search, sort with the default ranker incl. the default sorter of a composite type, compare/rank, format incl. String() through the class notation, parse, class functions (set algebra, Merge, Extract, Concatenate), a private Split/Join queue pipeline, iterate) 2..16 goroutines each run a deterministic script on instances they create themselves, three times; " +
 			"the sequential transcript of every script is computed first and every concurrent transcript must equal it; every pair is additionally run cold in a fresh child process (first use of all lazily initialised shared state happens concurrently, references computed afterwards); race reports with a repository frame are violations. Class accessors: 320 accessors (8 classes x 40 type parameters unused elsewhere) are called from 16 goroutines at once; all callers must receive the same class. " +
 			"distinct_nontrivial = distinct (family pair, goroutine count, repetition).",
 		Assumptions: []string{
@@ -19,7 +19,7 @@ func init() {
 		},
 		Repro: map[string]func() (bool, string){"race:c19.string": conc.ReproStringRace, "race:c19.sorter": conc.ReproSorterRace},
 		Engines: []*core.Engine{
-			{Name: "race/family-pairs", Count: core.FixedCount(np*5, np*60), Run: conc.RunC19Pair, Race: true, MaxWorkers: 4, CPULimit: 900},
+			{Name: "race/family-pairs", Count: core.FixedCount(np*3, np*40), Run: conc.RunC19Pair, Race: true, MaxWorkers: 4, CPULimit: 900},
 			{Name: "race/cold-start-pairs", Count: core.FixedCount(np, np*6), Run: conc.RunC19Cold, Race: true, MaxWorkers: 8, CPULimit: 600},
 			{Name: "race/class-accessors", Count: core.FixedCount(8, 64), Run: conc.RunC19Classes, Race: true, MaxWorkers: 4, CPULimit: 600},
 		},
